@@ -210,7 +210,7 @@ def gen_hsic(rng, tier):
     params[0]["b"] = int(sum(abs(wk) * xk for wk, xk in zip(params[0]["W"], x))) + 4 + \
         (4 if params[0]["X"] else 0)
     return dict(stream="hsic", shape=[h, w, c], rect=rect, params=params, x=x, g=g, n=n, pert=rng.choice(PERTS),
-                sampler=rng.choice(PLAIN_SAMPLERS), binary=binary, est=est,
+                sampler=rng.choice(PLAIN_SAMPLERS), binary=binary, est=est, decoy=rng.random() < 0.5,
                 bs=rng.choice([1, 7, n - 1, n, n + 1, 256]), ebs=rng.choice([None, None, 1, 2, g * g - 1, g * g, g * g + 1]))
 
 
@@ -394,9 +394,19 @@ def build_gsa(case, model, method):
         est = None if case.get("est", "default") == "default" else getattr(gsa, case["est"] + "Estimator")()
         return gsa.SobolAttributionMethod(model, grid_size=g, nb_design=n, sampler=getattr(gsa, case["sampler"])(),
                                           estimator=est, perturbation_function=case["pert"], batch_size=case["bs"])
+    shared = hsic_estimator(case.get("est", "default"))
+    if case.get("decoy") and shared is not None:
+        # history: ONE estimator object serves two explainers of the same grid / nb_design built on different samplers;
+        # the other one explains first.  The map of each must still be aligned with what ITS masks hid.
+        other = [s for s in PLAIN_SAMPLERS if s != case["sampler"]][(g + n) % (len(PLAIN_SAMPLERS) - 1)]
+        decoy = gsa.HsicAttributionMethod(fam.FQuadNumpy(case["params"]), grid_size=g, nb_design=n,
+                                          sampler=getattr(gsa, other)(binary=case["binary"]), estimator=shared,
+                                          perturbation_function=case["pert"], batch_size=case["bs"],
+                                          estimator_batch_size=case.get("ebs"))
+        decoy.explain(_image(case), np.ones((1, 1), np.float32))
     return gsa.HsicAttributionMethod(model, grid_size=g, nb_design=n,
                                      sampler=getattr(gsa, case["sampler"])(binary=case["binary"]),
-                                     estimator=hsic_estimator(case.get("est", "default")),
+                                     estimator=shared,
                                      perturbation_function=case["pert"], batch_size=case["bs"],
                                      estimator_batch_size=case.get("ebs"))
 
